@@ -705,29 +705,30 @@ class iindex(dict):
 
         new_entries = {}
         for coords, rowids in self.items():
-            keep = True
-            new_coords = [coords[0]]
+            # All the output coordinates this entry lands on: a list may
+            # include the same slice more than once.
+            all_new_coords = [[coords[0]]]
             for axis, order in enumerate(orders, 1):
                 coord = coords[axis]
                 if order is None:
                     # Keep all slices for this axis.
-                    new_coords.append(coord)
+                    positions = [coord]
                 elif type(order) is int:
                     if coord == order:
                         # Keep this single slice for this axis
                         # (but drop the axis).
-                        pass
-                    else:
-                        keep = False
-                        break
+                        continue
+                    positions = []
                 else:
-                    if coord in order:
-                        new_coords.append(order.index(coord))
-                    else:
-                        keep = False
-                        break
+                    positions = [i for i, o in enumerate(order) if o == coord]
 
-            if keep:
+                all_new_coords = [
+                    new_coords + [p] for new_coords in all_new_coords for p in positions
+                ]
+                if not all_new_coords:
+                    break
+
+            for new_coords in all_new_coords:
                 new_entries[tuple(new_coords)] = rowids
 
         return iindex(new_entries, self.common, new_shape)
